@@ -196,10 +196,13 @@ func encodeConfig(config TLSConfig) tlsConfigEncoder {
 // hash returns the hash of the tls config.
 func (c tlsConfigEncoder) hash() string {
 	buff := bytes.Buffer{}
+	// Every value is written with its length, so that two different configurations never produce the same
+	// text (a CA file "ca.pem" refreshed every "10s" and a CA file "ca.pem1" with interval "0s" would otherwise
+	// share one TLS config).
 	_, _ = buff.WriteString(fmt.Sprintf("%t", c.SkipVerifyPeerCert))
-	_, _ = buff.WriteString(c.TrustedCA)
-	_, _ = buff.WriteString(c.TrustedCAFile)
-	_, _ = buff.WriteString(c.TrustedCARefreshInterval)
+	_, _ = buff.WriteString(fmt.Sprintf("%d:%s", len(c.TrustedCA), c.TrustedCA))
+	_, _ = buff.WriteString(fmt.Sprintf("%d:%s", len(c.TrustedCAFile), c.TrustedCAFile))
+	_, _ = buff.WriteString(fmt.Sprintf("%d:%s", len(c.TrustedCARefreshInterval), c.TrustedCARefreshInterval))
 	hash := fnv.New64a()
 	_, _ = hash.Write(buff.Bytes())
 	out := hash.Sum(make([]byte, 0, 15))
